@@ -24,6 +24,21 @@ func (db *DB) InsertRaw(stream string, ts time.Time, dims bytemap.ByteMap, vals 
 		return errors.New("Declining to insert data directly to follower")
 	}
 
+	// dims and vals may come straight from a remote client: make sure they can
+	// be decoded before they go into the WAL and, from there, into row keys that
+	// every later query has to decode
+	if !validByteMap(dims) {
+		return errors.New("Invalid dims")
+	}
+	if len(dims) > maxDimsLength {
+		// row keys are built from the dims, and the filestore encodes the length
+		// of a key in 16 bits
+		return errors.New("Dims too large, %d exceeds maximum of %d bytes", len(dims), maxDimsLength)
+	}
+	if !validByteMap(vals) {
+		return errors.New("Invalid vals")
+	}
+
 	stream = strings.TrimSpace(strings.ToLower(stream))
 	db.tablesMutex.Lock()
 	w := db.streams[stream]
@@ -57,6 +72,21 @@ func (db *DB) InsertRaw(stream string, ts time.Time, dims bytemap.ByteMap, vals 
 		db.log.Error(err)
 	}
 	return err
+}
+
+const maxDimsLength = 65535
+
+// validByteMap checks that the given ByteMap can be decoded.
+func validByteMap(bm bytemap.ByteMap) (valid bool) {
+	defer func() {
+		if recover() != nil {
+			valid = false
+		}
+	}()
+	bm.IterateValues(func(key string, value interface{}) bool {
+		return true
+	})
+	return true
 }
 
 type walRead struct {
